@@ -1593,8 +1593,14 @@ package engine
 //@   unify-result-checked
 //@ func (*VM).exec
 //@   property C02
-//@   trusted
+//@   nosafety
+//@   trusted-frame
 //@   unify-result-checked
+//@   loop 1 invariant true
+//@   loop 2 invariant true
+//@   loop 3 invariant true
+//@   loop 4 invariant true
+//@   at-call (*Env).Unify#1 requires[a-constant-in-the-head-is-unified-with-the-argument] a2 == local(op, instruction).operand
 
 //@ spec fun keyOf(v int) int = wrap64(ite(tdiv(v, 2) != 0, 0 - v, v))
 //@ func newEnvKey
@@ -1641,6 +1647,7 @@ package engine
 //@   let ry = resolve(e, y)
 //@   bind senv, sok = (*Env).unify#1
 //@   bind tenv, tok = (*Env).unify#3
+//@   bind aenv, aok = (*Env).unify#2
 //@   at-call (*Env).Resolve#1 requires[both-sides-are-dereferenced-first] a0 == e && a1 == x
 //@   at-call (*Env).Resolve#2 requires[both-sides-are-dereferenced-first] a0 == e && a1 == y
 //@   at-call (*Env).unify#1 requires[a-variable-on-the-right-is-treated-as-on-the-left] a0 == e && a1 == ry && a2 == rx && a3 == occursCheck
@@ -1659,5 +1666,7 @@ package engine
 //@       (Compound.Functor(rx as Compound) != Compound.Functor(ry as Compound) || Compound.Arity(rx as Compound) != Compound.Arity(ry as Compound)) ==> !result1 && result0 == e
 //@   ensures[no-arguments] rx is Compound && ry is Compound && Compound.Functor(rx as Compound) == Compound.Functor(ry as Compound) &&
 //@       Compound.Arity(rx as Compound) == Compound.Arity(ry as Compound) && Compound.Arity(rx as Compound) <= 0 ==> result1 && result0 == e
+//@   ensures[fails-as-soon-as-a-pair-of-arguments-fails] rx is Compound && ry is Compound && Compound.Functor(rx as Compound) == Compound.Functor(ry as Compound) &&
+//@       Compound.Arity(rx as Compound) == Compound.Arity(ry as Compound) && !result1 ==> called(aenv) && !aok && result0 == aenv
 //@   ensures[symmetric-compound] rx is Compound && ry is Variable ==> result0 == senv && result1 == sok
 //@   ensures[symmetric-atomic] !(rx is Variable) && !(rx is Compound) && ry is Variable ==> result0 == tenv && result1 == tok
